@@ -392,6 +392,7 @@ class PARSE_VALUE:
     is: dropped to the (copied) default or left out under `exclude` -- unless the field is required,
     then it is an error ("a required field is never silently excluded"); kept raw under `preserve`;
     an error under `throw`.  Nothing but ParseError escapes."""
+    replay = "parse_value"
     cases = _pv_cases()
     setup = staticmethod(_pv_setup)
     returns_by_case = {cn: _pv_post(cn)[0] for cn in _pv_cases()}
@@ -442,6 +443,7 @@ def _pov_setup(ex, frame):
 
 @contract(F, "ParserField.parse_output_value", props=["C11", "C10", "C04", "C01"])
 class PARSE_OUTPUT_VALUE:
+    replay = "parse_output_value"
     cases = _POV
     setup = staticmethod(_pov_setup)
     returns_by_case = dict({cn: _simple_policy_post("accepts(self.output_type, value, context)", "converted(self.output_type, value, context)",
